@@ -254,6 +254,10 @@ package requestf
 //@   site ).Write#17 assert [C03] $2 == 0
 //@   site ).Write#18 assert [C03] $2 == 1
 //@   sites ).Write = 19
+// the element count written behind a container head is the length of that member
+//@   site ).Write#8 assert [C03] $1 == s32(len(st.SBuffer))
+//@   site ).Write#12 assert [C03] $1 == s32(len(st.Context))
+//@   site ).Write#16 assert [C03] $1 == s32(len(st.Status))
 //@   site ).Write#13 assert [C03] $1 == k3
 //@   site ).Write#14 assert [C03] $1 == v3
 //@   site ).Write#17 assert [C03] $1 == k4
@@ -290,6 +294,10 @@ package requestf
 //@   site ).Write#16 assert [C03] $2 == 0
 //@   site ).Write#17 assert [C03] $2 == 1
 //@   sites ).Write = 18
+// the element count written behind a container head is the length of that member
+//@   site ).Write#7 assert [C03] $1 == s32(len(st.SBuffer))
+//@   site ).Write#10 assert [C03] $1 == s32(len(st.Status))
+//@   site ).Write#15 assert [C03] $1 == s32(len(st.Context))
 //@   site ).Write#11 assert [C03] $1 == k3
 //@   site ).Write#12 assert [C03] $1 == v3
 //@   site ).Write#16 assert [C03] $1 == k4
